@@ -522,6 +522,8 @@ def kcenters_job(N, mode, k=None, warm=0, tri=False, entry='function', shortcut=
                     if rk > 2 * opt + 1e-12:
                         bad.append('radius-exceeds-twice-optimal')
                         break
+            if not metric.untouched():
+                bad.append('arrays-returned-by-the-metric-not-written')
             out['violated'] = bad
             return out
 
@@ -825,6 +827,8 @@ def kmedoids_job(N, k, entry='pam', sweeps=1, warm=None, proposals=False, tri=Fa
             if snap is not None and entry != 'pam':
                 if list(cpre[0]) != snap[0] and warm in ('centers', 'all'):
                     bad.append('caller-center-list-modified')
+            if not metric.untouched():
+                bad.append('arrays-returned-by-the-metric-not-written')
             out['violated'] = bad
             return out
 
